@@ -19,23 +19,23 @@ pub struct VecEngine;
 const MAX_IDS: usize = 4096;
 
 pub struct Reg {
-    live: Vec<AtomicI32>,
-    negative: AtomicU32,
-    poison: AtomicU32,
+    pub(crate) live: Vec<AtomicI32>,
+    pub(crate) negative: AtomicU32,
+    pub(crate) poison: AtomicU32,
 }
 
 impl Reg {
-    fn new() -> Arc<Reg> {
+    pub(crate) fn new() -> Arc<Reg> {
         Arc::new(Reg { live: (0..MAX_IDS).map(|_| AtomicI32::new(0)).collect(), negative: AtomicU32::new(0), poison: AtomicU32::new(0) })
     }
-    fn inc(&self, id: u32) {
+    pub(crate) fn inc(&self, id: u32) {
         if (id as usize) < MAX_IDS {
             self.live[id as usize].fetch_add(1, Ordering::SeqCst);
         } else {
             self.poison.fetch_add(1, Ordering::SeqCst);
         }
     }
-    fn dec(&self, id: u32) {
+    pub(crate) fn dec(&self, id: u32) {
         if (id as usize) < MAX_IDS {
             if self.live[id as usize].fetch_sub(1, Ordering::SeqCst) <= 0 {
                 self.negative.fetch_add(1, Ordering::SeqCst);
@@ -653,7 +653,7 @@ impl Engine for VecEngine {
         }
         let oob_rate = if rng.chance(1, 2) { 0 } else { rng.range(1, 4) as u64 };
         let foreign = rng.chance(1, 3);
-        let c_party = rng.chance(1, 3);
+        let c_party = rng.chance(1, 3) || simcore::force_c_party();
         // always start with a vector so that short runs do something
         let first_kind = if foreign { 3 } else { rng.range(0, 2) };
         p.push(0, "FromVec", &[0, rng.range(0, 6), rng.range(0, 4), first_kind]);
